@@ -204,12 +204,14 @@ def run_case_c11(ops, edit_ops, rng, stats, m, light=False):
         top_t = E.paths[0]
         keep[top_t] = HRef.from_parent_and_item(None, nl.top_instance)
         # -- 2. is_valid / is_unique / name of every reference
+        names_before = {}
         order = sorted(keep)
         ans = m.ask([q for t in order for q in ('valid ' + hw.tok(t), 'unique ' + hw.tok(t), 'name ' + hw.tok(t))])
         for i, t in enumerate(order):
             h = keep[t]
             iv, iu, inm = ('1' if h.is_valid else '0'), ('1' if h.is_unique else '0'), hw.impl_name(h)
             mv, mu, mnm = ans[3 * i:3 * i + 3]
+            names_before[t] = inm
             if (iv, iu, inm) != (mv, mu, mnm):
                 P.add('corr', 'corr|C11|attr', href=t, impl=[iv, iu, inm], model=[mv, mu, mnm])
             if E.rooted:
@@ -296,12 +298,16 @@ def run_case_c11(ops, edit_ops, rng, stats, m, light=False):
                 insts = [p for d in o.definitions for p in D.occurrences(d)]
             else:
                 insts = D.occurrences(o)
+            # the model of these roots: Hier/TraceRoots.v (get_h*_roots; instances are not part of it)
+            mq = [(k, r) for k in KINDS if k != 'inst' for r in (0, 1)]
+            mans = dict(zip(mq, m.ask(['roots h%ss %d INSIDE %d 42 X%d' % (k, n, r, i) for k, r in mq])))
             for k in KINDS:
                 for r in (False, True):
                     impl, _ = hw.impl_enum(w, k, o, r)
                     exp = sorted(set(insts)) if k == 'inst' else D.contents_from(k, insts, r)
                     cmp3(P, 'get_h%s(%s #%d, recursive=%s)' % (k, type(o).__name__, i, r),
-                         'C11|root|%s|%s' % (type(o).__name__, k), impl, None, exp)
+                         'C11|root|%s|%s' % (type(o).__name__, k), impl,
+                         hw.parse_hrefs(mans[(k, int(r))]) if k != 'inst' else None, exp)
                     stats['root:%s' % type(o).__name__] += 1
         hinsts = sample(rng, E.paths, 5 if light else 12)
         qs = [(k, r, t) for t in hinsts for k in KINDS for r in (0, 1)]
@@ -367,13 +373,40 @@ def run_case_c11(ops, edit_ops, rng, stats, m, light=False):
                         if badrefs:
                             P.add('oracle', 'C11|stale-root|%s-returns-invalid-reference' % qname, href=t, edits=[' '.join(o) for o in edit_ops])
                             break
+            # names after the edits (renames among them): the references KEPT from before the edits - their names
+            # were read then - and, below, freshly queried ones must report the name the edited netlist gives them
+            # (the model's href_name of C11_name_holds on the edited heap; the oracle's name when rooted)
+            still = [t for t in order if keep[t].is_valid]
+            ans = m.ask(['name ' + hw.tok(t) for t in still])
+            for t, mnm in zip(still, ans):
+                inm = hw.impl_name(keep[t])
+                if inm != mnm:
+                    P.add('corr', 'corr|C11|name-after-edit|kept-reference', href=t, impl=inm, model=mnm,
+                          edits=[' '.join(o) for o in edit_ops])
+                if E2 is not None and E2.rooted and t in E2.name and inm != 's:' + hw.tok_of_s(E2.name[t]):
+                    P.add('oracle', 'C11|name-after-edit|kept-reference-reports-another-name', href=t, impl=inm,
+                          expected=E2.name[t], edits=[' '.join(o) for o in edit_ops])
+                stats['after-edit:name-kept'] += 1
+                if inm != names_before.get(t):
+                    stats['after-edit:name-kept-changed'] += 1
             D2 = hier_oracles.Design(w)
             if E2 is not None:
                 ans = m.ask(['enum %s %d 1' % (k, n) for k in KINDS])
                 for k, a in zip(KINDS, ans):
-                    impl, _ = hw.impl_enum(w, k, nl, True)
+                    impl, fresh = hw.impl_enum(w, k, nl, True)
                     cmp3(P, 'get_h%s(netlist, recursive=1) after edits' % k, 'C11|enum-after-edit|%s' % k, impl,
                          hw.parse_hrefs(a), E2.expected_enum(k, True) if E2.rooted else None)
+                    fresh = sample(rng, fresh, 12 if light else 40)
+                    ftup = [hw.tup(w, h) for h in fresh]
+                    for h, t, mnm in zip(fresh, ftup, m.ask(['name ' + hw.tok(t) for t in ftup])):
+                        inm = hw.impl_name(h)
+                        if inm != mnm:
+                            P.add('corr', 'corr|C11|name-after-edit|fresh-reference', href=t, impl=inm, model=mnm,
+                                  edits=[' '.join(o) for o in edit_ops])
+                        if E2.rooted and t in E2.name and inm != 's:' + hw.tok_of_s(E2.name[t]):
+                            P.add('oracle', 'C11|name-after-edit|fresh-reference-reports-another-name', href=t, impl=inm,
+                                  expected=E2.name[t], edits=[' '.join(o) for o in edit_ops])
+                        stats['after-edit:name-fresh'] += 1
                 # ... and the occurrences of single elements are asked again (the same questions were asked before
                 # the edits: whatever a query remembers between calls must follow the edits)
                 items2 = []
@@ -455,6 +488,9 @@ def run_case_c12(ops, rng, stats, m, cap=70):
             cmp3(P, 'get_hpins(%s %s)' % (k, t), 'C12|get_hpins|%s' % k, raw, hw.parse_hrefs(ans[j]), E.expected_hpins_of(t))
             j += 1
             stats['trace:get_hpins/%s' % k] += 1
+        # -- every kind of root, collections of roots, recursive, patterns (Hier/TraceRoots.v)
+        if not P:
+            run_roots(P, w, n, nl, E, rng, stats, m, light=(cap < 70))
         # -- history after the queries (a third of the netlists): one pin is taken off a wire and another, so far
         #    unconnected, pin of the same cell is put on it - the wire has as many pins as before - and the tracing
         #    questions are asked again from members of the nets: whatever a query remembers about a wire it walked
@@ -499,6 +535,165 @@ def run_case_c12(ops, rng, stats, m, cap=70):
         return P
     finally:
         w.close()
+
+
+# ------------------------------------------------------------------ collections of roots (Hier/TraceRoots.v)
+def _pat_tok(p):
+    return ','.join(str(ord(c)) for c in p) if p else '-'
+
+
+def run_roots(P, w, n, nl, E, rng, stats, m, light=False):
+    """get_hwires / get_hcables / get_hpins / get_hports with every kind of root, and with collections of several
+    roots: instance references, the netlist, libraries, definitions, instances, plain ports / cables / pins /
+    wires / outer pins; recursive on/off, the four selections, patterns. Model (get_h*_roots of Hier/TraceRoots.v)
+    and implementation are compared as MULTISETS (sorted lists: the code iterates over Python sets - hpin_search,
+    set(get_all_hrefs_of_instances) - so the yield order is not a function of the design; a reference yielded twice
+    would differ). The oracle (pattern '*' only; what a pattern selects is C13's filter clause) is the union of the
+    per-root expectations."""
+    D = hier_oracles.Design(w)
+    single = len(D.by_netlist) == 1 and D.by_netlist[0][0] == n
+    top = E.paths[0]
+
+    # ---- candidate roots: (token, python object, class, list of start tuples it stands for)
+    cands = []
+    for t in sample(rng, E.paths, 3 if light else 4):
+        cands.append(('H' + hw.tok(t), hw.href_of(w, t), 'HRef-inst', [t]))
+    cands.append(('X%d' % n, nl, 'Netlist', [top]))
+    for k in ('wire', 'pin', 'cable', 'port'):
+        for t in sample(rng, E.by_kind[k], 1 if light else 2):
+            cands.append(('H' + hw.tok(t), hw.href_of(w, t), 'HRef-' + k, [t]))
+    if single:
+        plain = [(i, o) for i, o in enumerate(w.objs)
+                 if isinstance(o, (sdn.ir.Library, sdn.ir.Definition, sdn.ir.Instance, sdn.ir.Port, sdn.ir.Cable,
+                                   sdn.ir.InnerPin, sdn.ir.Wire))]
+        for i, o in sample(rng, plain, 6 if light else 9):
+            if isinstance(o, sdn.ir.Library):
+                occ = sorted(set(p for d in o.definitions for p in D.occurrences(d)))
+            else:
+                occ = D.occurrences(o)
+            cands.append(('X%d' % i, o, type(o).__name__, occ))
+        outers = [(i, o, ip, op) for i, o in enumerate(w.objs) if isinstance(o, sdn.ir.Instance) for ip, op in o.pins.items()]
+        for i, o, ip, op in sample(rng, outers, 2):
+            cands.append(('O%d.%d' % (i, w.index[id(ip)]), op, 'OuterPin', D.occurrences(op)))
+
+    def exp_one(fn, starts, s, r):
+        out = set()
+        for t in starts:
+            if t not in E.valid:
+                return None
+            inst = E.kind_of(t) == 'inst'
+            if fn in ('get_hwires', 'get_hcables'):
+                ws = E.expected_hwires_inst(t, s, r) if inst else E.expected_hwires(t, s)
+                out.update(ws if fn == 'get_hwires' else [h[:-1] for h in ws])
+            elif fn == 'get_hpins':
+                out.update(E.expected_below('pin', t, r) if inst else E.expected_hpins_of(t))
+            else:
+                out.update(E.expected_below('port', t, r) if inst else [h[:-1] for h in E.expected_hpins_of(t)])
+        return out
+
+    # ---- the questions: every single root, then some collections of 2-4 roots
+    groups = [[c] for c in cands]
+    for _ in range(3 if light else 6):
+        groups.append([rng.choice(cands) for _ in range(rng.randint(2, 4))])
+    # names to build patterns from: the references of the whole design
+    names = []
+    try:
+        names = sorted(set(h.name for h in sdn.get_hwires(nl, recursive=True)) | set(h.name for h in sdn.get_hpins(nl, recursive=True)))
+    except Exception:  # noqa
+        names = []
+
+    def some_patterns():
+        ps = []
+        for _ in range(rng.randint(1, 2)):
+            nm = rng.choice(names) if names else 'a'
+            tail = nm.split('/')[-1]
+            ps.append(rng.choice([nm, tail, '*' + tail, tail[:2] + '*', '*/' + tail, nm[:max(1, len(nm) // 2)] + '*', '*', '?' + tail[1:]]))
+        return ps
+
+    FNS = (('get_hwires', sdn.get_hwires, 'hwires', True), ('get_hcables', sdn.get_hcables, 'hcables', True),
+           ('get_hpins', sdn.get_hpins, 'hpins', False), ('get_hports', sdn.get_hports, 'hports', False))
+    plan = []
+    for g in groups:
+        for name, f, q, has_sel in FNS:
+            if len(g) == 1:
+                combos = [(s, r) for s in (SELS if has_sel else ('INSIDE',)) for r in (0, 1)]
+                if light or not g[0][2].startswith('HRef-inst'):
+                    combos = sample(rng, combos, 3)
+            else:
+                combos = [(rng.choice(SELS) if has_sel else 'INSIDE', rng.randint(0, 1)) for _ in range(2)]
+            for s, r in combos:
+                plan.append((g, name, f, q, has_sel, s, r, None))
+                if rng.random() < 0.5:
+                    plan.append((g, name, f, q, has_sel, s, r, some_patterns()))
+    ans = m.ask(['roots %s %d %s %d %s %s' % (q, n, s, r, ';'.join(_pat_tok(x) for x in (pats or ['*'])),
+                                              ' '.join(c[0] for c in g)) for g, name, f, q, has_sel, s, r, pats in plan])
+    for (g, name, f, q, has_sel, s, r, pats), a in zip(plan, ans):
+        kw = {'recursive': bool(r)}
+        if has_sel:
+            kw['selection'] = hw.SEL[s] if rng.random() < 0.5 else s
+        objs = [c[1] for c in g] if len(g) > 1 or rng.random() < 0.5 else g[0][1]
+        try:
+            refs = list(f(objs, list(pats), **kw)) if pats is not None else list(f(objs, **kw))
+        except TypeError as e:   # a name that is not a string: str.join raises (outside the model's domain)
+            stats['rootshape:impl-raises-TypeError'] += 1
+            continue
+        raw = [hw.tup(w, x) for x in refs]
+        kinds = '+'.join(sorted(set(c[2] for c in g))) if len(g) > 1 else g[0][2]
+        shape = 'collection' if len(g) > 1 else g[0][2]
+        sig = 'C12|roots|%s|%s|%s' % (name, shape, (s if has_sel else '-') if pats is None else 'patterns')
+        if len(raw) != len(set(raw)):
+            P.add('oracle', sig + '|duplicate-reference', roots=[c[0] for c in g], selection=s, recursive=r)
+        exp = None
+        if pats is None:
+            parts = [exp_one(name, c[3], s, bool(r)) for c in g]
+            if all(x is not None for x in parts):
+                exp = sorted(set().union(*parts))
+        cmp3(P, '%s(%s, selection=%s, recursive=%d, patterns=%r)' % (name, [c[0] for c in g], s, r, pats), sig,
+             sorted(raw), hw.parse_hrefs(a), exp)
+        for x in refs:
+            if not x.is_valid:
+                P.add('oracle', 'C12|roots|%s|returns-invalid-reference' % name, roots=[c[0] for c in g])
+                break
+        stats['roots:%s/%s' % (name, shape)] += 1
+        stats['rootshape:patterns=%s' % ('default' if pats is None else 'given')] += 1
+        if pats is not None:
+            stats['rootshape:pattern-answer-%s' % ('empty' if not raw else 'nonempty')] += 1
+        if len(g) > 1:
+            stats['rootshape:collection-size:%d' % len(g)] += 1
+            for kd in set(c[2] for c in g):
+                stats['rootshape:in-collection:%s' % kd] += 1
+        stats['answer-size'].append(len(raw))
+    # ---- yield ORDER (get_ordered of Hier/TraceRoots.v): one root that is the netlist or a reference to a
+    #      hierarchical instance, default selection (INSIDE): the answer comes from the pattern loop over the
+    #      name map alone - no Python set is iterated - and is compared as a LIST, element by element
+    oroots = [c for c in cands if c[2] in ('HRef-inst', 'Netlist')]
+    oplan = []
+    for c in oroots:
+        for name, f, q, has_sel in FNS:
+            for r in (0, 1):
+                oplan.append((c, name, f, q, r, None))
+                oplan.append((c, name, f, q, r, some_patterns() + (['*'] if rng.random() < 0.5 else [])))
+    oplan = sample(rng, oplan, 12 if light else 28)
+    ans = m.ask(['ordered %s %d %s %s' % (q, r, ';'.join(_pat_tok(x) for x in (pats or ['*'])), hw.tok(c[3][0]))
+                 for c, name, f, q, r, pats in oplan])
+    for (c, name, f, q, r, pats), a in zip(oplan, ans):
+        try:
+            refs = list(f(c[1], list(pats), recursive=bool(r))) if pats is not None else list(f(c[1], recursive=bool(r)))
+        except TypeError:
+            stats['rootshape:order-impl-raises-TypeError:model-%s' % ('raises' if a == 'RAISES' else 'answers')] += 1
+            continue
+        raw = [hw.tup(w, x) for x in refs]
+        mod = 'FUEL' if a in ('FUEL', 'RAISES') else [tuple(int(x) for x in h.split('.')) for h in a.split(' ') if h]
+        if raw != mod:
+            same_set = mod != 'FUEL' and sorted(raw) == sorted(mod)
+            P.add('corr', 'corr|C12|roots-order|%s|%s|%s' % (name, c[2], 'same-elements-other-order' if same_set else 'other-elements'),
+                  what='%s(%s, recursive=%d, patterns=%r): yield order' % (name, c[0], r, pats),
+                  impl=raw[:6], model=(mod[:6] if mod != 'FUEL' else a))
+        stats['roots:order/%s/%s' % (name, c[2])] += 1
+        if len(raw) > 1:
+            stats['rootshape:order-nontrivial(>1 element)'] += 1
+        if len(set(raw)) > 2 and raw != sorted(raw) and raw != sorted(raw, reverse=True):
+            stats['rootshape:order-differs-from-sorted'] += 1
 
 
 def net_shape(E, c):
@@ -746,7 +941,7 @@ def run(prop, tier, seed, replay):
     wall = time.time() - t0
     theorems = proof['theorems']
     lists = {k: stats.pop(k, []) for k in ('paths', 'class-size', 'class-levels', 'answer-size')}
-    evaluations = sum(v for k, v in stats.items() if isinstance(v, int) and k.split(':')[0] in ('enum', 'occ', 'root', 'trace', 'flyweight-checked', 'unique', 'after-edit'))
+    evaluations = sum(v for k, v in stats.items() if isinstance(v, int) and k.split(':')[0] in ('enum', 'occ', 'root', 'roots', 'trace', 'flyweight-checked', 'unique', 'after-edit'))
     coverage = {
         'obligations': len(theorems), 'discharged': len(theorems) if (ok and proof['ok']) else 0,
         'checker_cmd': proof['cmd'] + '   (after building coq/theories/Hier/*.v, Proofs/Hier*.v in dependency order)',
